@@ -1,0 +1,28 @@
+//! Verification hooks. Compiled only with `--cfg kira_verif`; with the
+//! cfg off this module does not exist and no call site is compiled in.
+//!
+//! A hook is a process-wide callback invoked at named points of the
+//! library. It receives the name of the point and two numbers whose
+//! meaning depends on the point. The hook may block (that is how a test
+//! harness takes control of a schedule) but must not allocate when it is
+//! called from the audio thread.
+
+use std::sync::{Arc, RwLock};
+
+/// The type of a verification hook.
+pub type Hook = Arc<dyn Fn(&'static str, usize, usize) + Send + Sync>;
+
+static HOOK: RwLock<Option<Hook>> = RwLock::new(None);
+
+/// Installs (or removes) the process-wide hook.
+pub fn set_hook(hook: Option<Hook>) {
+	*HOOK.write().unwrap_or_else(|e| e.into_inner()) = hook;
+}
+
+#[inline]
+pub(crate) fn point(site: &'static str, a: usize, b: usize) {
+	let hook = HOOK.read().unwrap_or_else(|e| e.into_inner()).clone();
+	if let Some(hook) = hook {
+		hook(site, a, b);
+	}
+}
